@@ -41,6 +41,10 @@ func checkStopPng(p *Program, r *Report) {
 	r.SawFn(shortFn(fn))
 	pr := pngRun(p)
 	pos := p.FnPos(fn)
+	// the stop rules below are decided on chunk streams the parser stays aligned with; a
+	// maximum-length profile name whose terminator is left unread shifts every later chunk
+	// boundary, so that IDAT is never recognised and the image body is pulled
+	r.Check(pngNameLoopBound(fn), "C18.E1", "png iCCP name terminator consumed", pos, "the profile-name loop can read 80 bytes (79-byte name + NUL): the parser stays aligned with the chunk boundaries for every legal name length", "the iCCP profile-name loop cannot read the terminator of a 79-byte name: the NUL is taken for the compression-method byte, every later chunk boundary is off by one, IDAT is never recognised and the whole image body is pulled from the source")
 	if len(pr.Stuck) > 0 {
 		r.Undecide("C18.E1", "pngmeta", p.Pos(pr.Stuck[0].Pos), "parser not extractable: "+pr.Stuck[0].Why)
 		return
